@@ -511,8 +511,9 @@ static void run_slots(void)
 					snprintf(in + strlen(in), sizeof(in) - strlen(in), "e g%d\n", i);
 			}
 			snprintf(in + strlen(in), sizeof(in) - strlen(in), "b 1\n1d\n");
+			/* leaving a modified buffer needs the forced form: e! <path of an open buffer> switches to it */
 			for (i = 2; i <= k + 1; i++)
-				snprintf(in + strlen(in), sizeof(in) - strlen(in), "b%s %d\n", i == 2 ? "!" : "", i);
+				snprintf(in + strlen(in), sizeof(in) - strlen(in), "e! g%d\n", i);
 			snprintf(in + strlen(in), sizeof(in) - strlen(in), "q\nec SENTINEL\n");
 			slot_k = 1;
 			slot_j = k + 1;
